@@ -42,6 +42,7 @@ def run(repo: Repo, chk: Check) -> None:
     fixpoint(repo, chk)
     rewrite_identities(repo, chk)
     pack(repo, chk)
+    transform_linear(repo, chk)
 
 
 # --------------------------------------------------------------------------- StridePattern print / parse
@@ -358,6 +359,13 @@ def _model_eval(e: ast.AST, expr: _V, pname: str):
         if fn == "AffineBinaryOpExpr" and len(e.args) == 3:
             k = _model_eval(e.args[0], expr, pname)
             return _V(k, _model_eval(e.args[1], expr, pname), _model_eval(e.args[2], expr, pname))
+        if fn in ("min", "max", "abs", "math.gcd", "gcd", "math.lcm", "lcm") and e.args and not e.keywords:
+            vals = [_model_eval(a, expr, pname) for a in e.args]
+            if any(isinstance(v, _V) or not isinstance(v, int) for v in vals):
+                raise _Unknown(ast.unparse(e))
+            import math
+
+            return {"min": min, "max": max, "abs": abs, "math.gcd": math.gcd, "gcd": math.gcd, "math.lcm": math.lcm, "lcm": math.lcm}[fn](*vals)
         if fn == "isinstance" and len(e.args) == 2:
             v = _model_eval(e.args[0], expr, pname)
             cls = ast.unparse(e.args[1])
@@ -482,3 +490,64 @@ def rewrite_identities(repo: Repo, chk: Check) -> None:
     okd = all(f"if expr.kind is AffineBinaryOpKind.{k}:\n        return {q}(expr)" in src for q, k in kinds.items())
     chk.result(okd, "C19.rewrite-identities", f"{b.key}:dispatch", b.where, "each kind is dispatched to its own canonicaliser",
                "canonicalize_binary_op dispatches a kind to the canonicaliser of another kind")
+
+
+# --------------------------------------------------------------------------- AffineTransform only represents linear maps
+AT = "snaxc/ir/dart/affine_transform.py"
+NONLIN = ("FloorDiv", "CeilDiv", "Mod")
+
+
+def transform_linear(repo: Repo, chk: Check) -> None:
+    chk.rule(
+        "C19.transform-linear",
+        "AffineTransform.from_affine_map (matrix form = unit responses) refuses every map that contains a floordiv / ceildiv / mod ANYWHERE in a "
+        "result: the test visits all sub-expressions (dfs, or a recursion that descends into both operands of every binary node it accepts)",
+        floor=1,
+    )
+    f = repo.func(AT, "AffineTransform.from_affine_map")
+    chk.analysed(f.key)
+    fl = Flow(f, repo)
+    mp = f.param(1) if len(f.params) > 1 else "map"
+    key = f.key
+    # form (a): raise inside a loop over <result>.dfs() for result in map.results, under kind in the three non-linear kinds
+    for s_ in fl.stmts(ast.Raise):
+        if not s_.reachable:
+            continue
+        loops = [l for l in s_.loops if isinstance(l, ast.For)]
+        over_results = any(norm.contains(l.iter, T(f"{mp}.results")) for l in loops)
+        full = any(norm.match(T("$r.dfs()"), l.iter) is not None or norm.match(T("$r.walk()"), l.iter) is not None for l in loops)
+        kinds_ok = all(any(k in t for t in s_.fact_texts) for k in NONLIN)
+        if over_results and full and kinds_ok:
+            chk.ok("C19.transform-linear", f"{key}:complete-traversal", s_.where(), "every sub-expression of every result is visited; FloorDiv, CeilDiv and Mod raise")
+            return
+    # form (b): a recursive predicate
+    helpers = [n for n in f.node.body if isinstance(n, ast.FunctionDef)]
+    rec = [h for h in helpers if any(isinstance(c, ast.Call) and isinstance(c.func, ast.Name) and c.func.id == h.name for c in ast.walk(h))]
+    used = [h for h in rec if any(isinstance(c, ast.Call) and isinstance(c.func, ast.Name) and c.func.id == h.name for st in f.node.body if st is not h for c in ast.walk(st))]
+    if not used:
+        chk.bad("C19.transform-linear", f"{key}:complete-traversal", f.where,
+                "no complete traversal of the result expressions guards the conversion: a floordiv/mod nested in a result is linearised silently")
+        return
+    h = used[0]
+    hf = f.nested(h.name)
+    hfl = Flow(hf, repo)
+    ep = hf.param(0)
+    problems = []
+    for r in hfl.stmts(ast.Return):
+        if not r.reachable or r.node.value is None:
+            continue
+        v = r.node.value
+        if isinstance(v, ast.Constant) and v.value is False:
+            continue
+        base_case = any(x.kind == "atom" and norm.any_match([f"not isinstance({ep}, AffineBinaryOpExpr)", f"isinstance({ep}, (AffineDimExpr, AffineConstantExpr, AffineSymExpr))",
+                                                             f"isinstance({ep}, AffineDimExpr | AffineConstantExpr)"], x.expr) is not None for x in r.facts)
+        if base_case:
+            continue
+        calls = [c for c in ast.walk(v) if isinstance(c, ast.Call) and isinstance(c.func, ast.Name) and c.func.id == h.name and c.args]
+        sides = {ast.unparse(c.args[0]) for c in calls}
+        if not ({f"{ep}.lhs", f"{ep}.rhs"} <= sides):
+            problems.append(f"line {r.node.lineno}: `return {ast.unparse(v)[:80]}` accepts a binary node without checking " + " and ".join(sorted({f"{ep}.lhs", f"{ep}.rhs"} - sides)))
+    rejects = all(any(k in ast.unparse(hf.node) for k in ("Add", "Mul")) for _ in [0])
+    chk.result(not problems, "C19.transform-linear", f"{key}:complete-traversal", hf.where,
+               f"{h.name} descends into both operands of every binary node it accepts",
+               f"{h.name} does not visit every sub-expression ({'; '.join(problems[:2])}): a floordiv/mod below such a node is accepted and the map is linearised silently")
